@@ -349,6 +349,9 @@ def check(run):
                               'a character-class test excludes the boundary character itself (%s): that one character is treated differently from the rest of its class - e.g. header names containing it are not folded to lower case, so look-ups and duplicate handling miss them' % q.render(f_, n_),
                               'boundary included')
     run.ok('R5', 'class-boundary-inclusive', 'scan', '', 'comparisons against class boundary characters in http_server.cpp: %d' % ncls, nontrivial=False)
+    run.clause('no scan is bounded by a signed difference converted to unsigned: a window shorter than the needle must give an empty scan, not a 2^64 one')
+    nsd = engines.signed_difference_compares(run, [f_ for f_ in fx.repo_functions(raw=True) if f_.file.endswith('http_server.cpp') and f_.cfg is not None])
+    run.ok('R11', 'unsigned-compare-of-difference', 'scan', '', 'relational comparisons with a signed operand converted to unsigned in http_server.cpp: %d' % nsd, nontrivial=False)
     run.floor('R12', 8)
     run.floor('R5', 8)
 
